@@ -13,6 +13,7 @@ import (
 	"fmt"
 	"math"
 	"math/big"
+	"reflect"
 	"strconv"
 
 	"github.com/getkin/kin-openapi/openapi3"
@@ -42,7 +43,8 @@ func init() {
 	})
 }
 
-func genC12(ctx *hx.Ctx, emit func(hx.Case)) {
+func genC12(ctx *hx.Ctx, emit0 func(hx.Case)) {
+	emit := func(c hx.Case) { delete(c, "pre"); emit0(c) } // the regex-compiler history is observed by C01
 	// Go values outside the JSON range that real callers produce (a query parameter `NaN` parses to float64 NaN)
 	nan := map[string]any{"$float": "NaN"}
 	for _, f := range []any{nan, map[string]any{"$float": "+Inf"}, map[string]any{"$float": "-Inf"}} {
@@ -61,7 +63,7 @@ func genC12(ctx *hx.Ctx, emit func(hx.Case)) {
 			}
 		}
 	}
-	genSchemaCases(ctx, emit, true)
+	genSchemaCases(ctx, emit, true, 2)
 }
 
 func canonValue(v any) any {
@@ -164,13 +166,13 @@ func flattenErrs(err error, out *[]error) {
 func describeErr(err error, input any) map[string]any {
 	se, ok := err.(*openapi3.SchemaError)
 	if !ok {
-		return map[string]any{"field": "<not a SchemaError>", "text": err.Error(), "located": true, "pointer": []string{}}
+		return map[string]any{"field": "<not a SchemaError>", "located": true}
 	}
 	ptr := se.JSONPointer()
 	if ptr == nil {
 		ptr = []string{}
 	}
-	d := map[string]any{"field": se.SchemaField, "pointer": ptr, "reason": se.Reason}
+	d := map[string]any{"field": se.SchemaField, "pointer": ptr}
 	hasValue := se.Value != nil
 	if hasValue {
 		d["value"] = canonValue(se.Value)
@@ -212,7 +214,7 @@ func runC12(c hx.Case) any {
 	with := func(o ...openapi3.SchemaValidationOption) []openapi3.SchemaValidationOption {
 		return append(append([]openapi3.SchemaValidationOption{}, co...), o...)
 	}
-	before := hx.Canon(canonValue(goValue(c["value"])))
+	pristine := goValue(c["value"])
 	unchanged := true
 	// every mode validates its own fresh copy of the value; with DefaultsSet under a request/response reading the copy is
 	// mutated and handed back, otherwise it must come back as it went in
@@ -220,7 +222,7 @@ func runC12(c hx.Case) any {
 	run := func(o ...openapi3.SchemaValidationOption) map[string]any {
 		v := goValue(c["value"])
 		e := s.VisitJSON(v, with(o...)...)
-		if !inj && !jbool(c, "nonjson") && hx.Canon(canonValue(v)) != before {
+		if !inj && !jbool(c, "nonjson") && !reflect.DeepEqual(v, pristine) {
 			unchanged = false
 		}
 		return modeObs(e, v, inj)
